@@ -71,7 +71,7 @@ class Report:
 
     def require_min(self, rule, minimum):
         n = self.rule_counts.get(rule, 0)
-        if n < minimum:
+        if n < minimum and not self.viol:
             raise cdb.AnalysisBroken("rule %s matched %d instance(s), fewer than the %d confirmed on the pinned tree: "
                                      "the construct it is anchored in has gone (vacuous pass refused)" % (rule, n, minimum))
 
